@@ -40,7 +40,7 @@ ASSUMPTIONS = [
     "the 'helpers leave constants, variables, subscripts ... unwrapped' sentence is a pure "
     "function of the argument and is only ridden along per helper as documented in the code",
 ]
-EXPECTED_PROBES = ["lists_with_repeats", "commuted_repeats", "nested_repeats",
+EXPECTED_PROBES = ["lists_dropped", "falsy_wrapper_values", "lists_with_repeats", "commuted_repeats", "nested_repeats",
                    "prewrapped_lists", "wrappers_evaluated", "post_fault_cache_hits",
                    "s2_bounds_checked", "reused_evaluator_evals"]
 
@@ -118,11 +118,36 @@ def _gen_list(r, wrapper_free, nv):
     return out
 
 
+def _gen_vars(r):
+    # a variable is zero now and then: wrappers whose value is falsy (0) are still values
+    return {v: (["fr", 0, 1] if r.random() < 0.2 else
+                ["fr", r.randint(1, 9), r.choice([1, 1, 2, 3])])
+            for v in ["a", "b", "c", "d"]}
+
+
 def generate(seed, tier):
     r = random.Random(seed)
     nv = r.random() < 0.1
     fault_run = (not nv) and r.random() < 0.3
     ops = []
+    if not nv and r.random() < 0.3:
+        # churn: lists are built, tagged, evaluated and dropped (garbage collected) in many
+        # rounds inside one process, so that anything the tagger or an evaluator keeps
+        # beyond a call -- keyed on object identity, say -- meets recycled objects
+        ev = {"ev": 0, "cached": r.random() < 0.3, "vars": _gen_vars(r)}
+        nrounds = r.randint(6, 18)
+        for lid in range(nrounds):
+            terms = _gen_list(r, True, False)
+            ops.append(["list", lid, terms, True])
+            ops.append(["tag", lid])
+            if r.random() < 0.5:
+                ops.append(["evalall", {"ev": 100 + lid, "cached": r.random() < 0.3,
+                                        "vars": _gen_vars(r)}, lid, list(range(len(terms)))])
+            else:
+                for _ in range(r.randint(1, 3)):
+                    ops.append(["eval", ev, ["tagged", lid, r.randrange(len(terms))], None])
+            ops.append(["drop", lid])
+        return {"config": {"nv": False, "fault_run": False, "churn": True}, "ops": ops}
     nlists = r.randint(1, 3)
     lists = []
     for lid in range(nlists):
@@ -133,9 +158,7 @@ def generate(seed, tier):
     nev = r.randint(1, 4)
     evs = []
     for k in range(nev):
-        evs.append({"ev": k, "cached": r.random() < 0.35,
-                    "vars": {v: ["fr", r.randint(1, 9), r.choice([1, 1, 2, 3])]
-                             for v in ["a", "b", "c", "d"]}})
+        evs.append({"ev": k, "cached": r.random() < 0.35, "vars": _gen_vars(r)})
     for lid, n, wf in lists:
         if r.random() < 0.7:
             ops.append(["tag", lid])
@@ -143,9 +166,7 @@ def generate(seed, tier):
     nextev = nev
     for lid, n, wf in lists:
         if wf and r.random() < 0.8:
-            e = {"ev": nextev, "cached": r.random() < 0.3,
-                 "vars": {v: ["fr", r.randint(1, 9), r.choice([1, 1, 2, 3])]
-                          for v in ["a", "b", "c", "d"]}}
+            e = {"ev": nextev, "cached": r.random() < 0.3, "vars": _gen_vars(r)}
             nextev += 1
             order = list(range(n))
             if r.random() < 0.5:
@@ -431,6 +452,9 @@ def execute(scenario, open_sigs):
             viol("C12/outcome-differs", {"what": tag, "got": [got[0], type(got[1]).__name__],
                                          "want": [want[0], type(want[1]).__name__]})
         states.add(cache_sig(e))
+        ccd = getattr(e.obj, "_cse_cache_dict", None)
+        if ccd and any(isinstance(v, (int, float, Fraction)) and v == 0 for v in ccd.values()):
+            probe("falsy_wrapper_values")
         return got, comps
 
     try:
@@ -554,6 +578,25 @@ def execute(scenario, open_sigs):
                         probe("nested_repeats")
                 events.append([opi, "evalall", desc["ev"], lid, len(allcomps)])
                 continue
+            if k == "drop":
+                L = lists.pop(op[1], None)
+                if L is not None:
+                    # let go of every reference the simulator holds so the objects die
+                    L.clear()
+                    del L
+                    dead = evs.pop(100 + op[1], None)      # the list's own evalall evaluator
+                    if dead is not None:
+                        obs.watched.pop(id(dead.obj), None)
+                        del dead
+                    obs.release_frames(0)
+                    obs.log.clear()
+                    obs.memo.clear()
+                    obs._keep[:] = [e.obj for e in evs.values()]
+                    import gc
+                    gc.collect()
+                    probe("lists_dropped")
+                events.append([opi, "drop", op[1]])
+                continue
             if k == "wrap":
                 _, helper, lid, i, prefix, scope = op
                 L = get_list(lid)
@@ -605,12 +648,22 @@ def check_wrap(helper, x, prefix, scope, p, np, viol):
                                 "x": str(canon(x))[:200], "r": str(canon(r))[:200]})
         return
     if helper == "make_cse_array":
-        arr = np.empty(3, dtype=object)
-        arr[0], arr[1], arr[2] = x, 7, p.Variable("q") + 1
-        r = p.make_common_subexpression(arr, prefix, scope)
-        if not (isinstance(r, np.ndarray) and r.shape == (3,)
-                and all(made_ok(arr[j], r[j]) for j in range(3))):
-            viol("C12/helper", {"helper": helper, "what": "object array not wrapped componentwise"})
+        base = np.empty(3, dtype=object)
+        base[0], base[1], base[2] = x, 7, p.Variable("q") + 1
+        m = np.empty((2, 3), dtype=object)
+        for i in range(2):
+            for j in range(3):
+                m[i, j] = p.Variable("m")[i, j] + j
+        m[0, 1] = x
+        # the same entries seen through different memory layouts: componentwise means by index
+        for name, arr in (("contiguous", base), ("reversed view", base[::-1]), ("matrix", m),
+                          ("transposed", m.T), ("fortran order", np.asfortranarray(m)),
+                          ("flipped rows", m[::-1])):
+            r = p.make_common_subexpression(arr, prefix, scope)
+            if not (isinstance(r, np.ndarray) and r.shape == arr.shape
+                    and all(made_ok(arr[i], r[i]) for i in np.ndindex(arr.shape))):
+                viol("C12/helper", {"helper": helper, "layout": name,
+                                    "what": "object array not wrapped componentwise"})
         return
     if helper == "make_cse_mv":
         from pymbolic.geometric_algebra import MultiVector
